@@ -514,6 +514,18 @@ func (Prop) Run(c *engine.Ctx) {
 		c.Case("decode/P="+p.name, func(t *engine.T) { decodeCase(t, curve, ref, p) })
 	}
 	c.Case("decode/short-and-infinity", func(t *engine.T) { decodeShort(t, curve) })
+	c.Case("decode/canonical-all-points", func(t *engine.T) {
+		decs := decoders(curve)
+		for _, p := range pts {
+			if p.p.Inf {
+				continue
+			}
+			checkDecode(t, ref, decs, mutant{"canonical/65", p.p.Uncompressed()})
+			checkDecode(t, ref, decs, mutant{"canonical/33", p.p.Compressed()})
+			neg := ref.Neg(p.p)
+			checkDecode(t, ref, decs, mutant{"canonical/33", neg.Compressed()})
+		}
+	})
 }
 
 // subAlphabet picks n scalars for the CombinedMult grid: the edge values first, then an even stride through
